@@ -49,13 +49,13 @@ theorem propagateTerm_inv (c : Cst) (st : SolverSt) (pivot : Var) (coef : Int) (
     simp only []
     by_cases h1 : (!Itv.beq (Itv.mul rhs (Itv.single coef)) ro.1) = true
     · simp only [h1, if_true]; exact h
-    · simp only [h1, if_false]
+    · simp only [h1]
       by_cases h2 : (Itv.trim (st.env.get pivot) rhs).isBottom = true
       · simp only [h2, if_true]; exact h
-      · simp only [h2, if_false]
+      · simp only [h2]
         by_cases h3 : (!Itv.beq (st.env.get pivot) (Itv.trim (st.env.get pivot) rhs)) = true
         · simp only [h3, if_true]; exact hP.set _ _ _ h
-        · simp only [h3, if_false]; exact h
+        · simp only [h3]; exact h
 
 theorem propagateLoop_inv (c : Cst) : ∀ (ts : List (Var × Int)) (st : SolverSt), P st.env →
     P (propagateLoop c ts st).2.env := by
@@ -151,7 +151,7 @@ theorem solverRun_inv (csts : Sys) (maxCycles : Nat) (env : Env) (h : P env) : P
   generalize prepLoop csts [] 0 = p
   by_cases hc : p.contradiction = true
   · simp only [hc, if_true]; exact hP.bot
-  · simp only [hc, if_false]
+  · simp only [hc]
     generalize hr : (if (decide (p.tbl.length > largeCstThreshold) || decide (p.opc > largeOpThreshold)) = true
         then solveLarge p.tbl (p.opc * maxCycles) ⟨env, [], 0⟩
         else solveSmall p.tbl maxCycles ⟨env, [], 0⟩) = r
@@ -162,7 +162,7 @@ theorem solverRun_inv (csts : Sys) (maxCycles : Nat) (env : Env) (h : P env) : P
       · exact solveSmallLoop_inv hP _ _ ⟨env, [], 0⟩ h
     by_cases hb : r.1 = true
     · simp only [hb, if_true]; exact hP.bot
-    · simp only [hb, if_false]; exact hr'
+    · simp only [hb]; exact hr'
 
 theorem foldSet_inv (f : Var → Itv) : ∀ (ks : List Var) (acc : Env), P acc →
     P (ks.foldl (fun env key => env.set key (f key)) acc) := by
